@@ -193,6 +193,16 @@ pub fn dispatch(parts: &[&str]) -> String {
             let pp = reparsed.as_ref() == Some(&v);
             format!("ok typed={} bits={} reconstruct={} printparse={} printed={}", well_typed, bits, round, pp, printed)
         }
+        "render_err" => {
+            // rendered compile error of a source text (hex), or "ok" when it compiles
+            match simfony::TemplateProgram::new(unhex(parts[1])) {
+                Ok(t) => match t.instantiate(Arguments::default(), false) {
+                    Ok(_) => "ok".to_string(),
+                    Err(e) => format!("err {}", super::hex(e.as_bytes())),
+                },
+                Err(e) => format!("err {}", super::hex(e.as_bytes())),
+            }
+        }
         "debug_info" => debug_info(&unhex(parts[1]), &unhex(parts[2])),
         "run" => {
             // run <src> <args module> <witness module> <debug 0|1>
